@@ -276,11 +276,25 @@ def run_case(ctx):
         # an earlier conversion of ANOTHER checkpoint (other species count) in the same process
         first = Chk2pltT()
         first.draw(ctx, RandomSource(src.draw("earlier.seed", 0, 9999)))
-        first.opts.update(in_form="abs", cwd="work", out="abs", cli=False)
-        r0 = os.path.join(ctx.scratch, "earlier")
+        same_root = bool(src.draw("earlier.same_root", 0, 1))
+        if same_root:
+            # ... of a checkpoint that lived at the very same path (and was converted to the same place)
+            first.opts = dict(t.opts)
+        else:
+            first.opts.update(in_form="abs", cwd="work", out="abs", cli=False)
+        r0 = os.path.join(ctx.scratch, "run" if same_root else "earlier")
         first.prepare_root(r0)
-        first.call(ctx, r0)
-        ctx.reset_pools()
+        try:
+            first.call(ctx, r0)
+        except Exception:
+            pass
+        if same_root:
+            import shutil
+            if src.flag("earlier.keep_output"):
+                shutil.rmtree(os.path.join(r0, "data"))     # the earlier OUTPUT stays: it is written over
+                ctx.probe("history.output_preexisting")
+            else:
+                shutil.rmtree(r0)
         ctx.probe("earlier_conversion_in_process")
     root = os.path.join(ctx.scratch, "run")
     inputs = t.prepare_root(root)
